@@ -29,7 +29,9 @@ func genSRTCues(r *rng, maxCues int) []srtCue {
 	var cues []srtCue
 	var t int64
 	for i := 0; i < n; i++ {
-		t += r.rangeI(0, 5000)
+		if !(i == 0 && r.chance(1, 6)) { // a first cue at the very start of the programme, often
+			t += r.rangeI(0, 5000)
+		}
 		if r.chance(1, 20) {
 			t += r.rangeI(0, 99) * 3600000
 		}
@@ -37,6 +39,9 @@ func genSRTCues(r *rng, maxCues int) []srtCue {
 			t = 100*3600000 - 20000
 		}
 		e := t + r.rangeI(0, 9000)
+		if r.chance(1, 12) {
+			e = t
+		}
 		c := srtCue{start: t, end: e}
 		for l := 1 + r.intn(3); l > 0; l-- {
 			var line []srtRun
